@@ -1,2 +1,36 @@
 import Brax.Model.C12
-def main : IO Unit := Brax.driverLoop Brax.C12.driverStep
+import Brax.Model.C02
+open Brax
+
+/-- float vectors for the n-dof linear model -/
+structure Vec where
+  xs : List Float
+instance : Add Vec := ⟨fun a b => ⟨List.zipWith (· + ·) a.xs b.xs⟩⟩
+instance : Neg Vec := ⟨fun a => ⟨a.xs.map fun x => -x⟩⟩
+instance : SMul Float Vec := ⟨fun c a => ⟨a.xs.map fun x => c * x⟩⟩
+
+/-- `lin <n> M(n·n) <n> k <dt> <n> q <n> v <steps>` → the steps+1 states of `C12.linIter` with `A q = M⁻¹ (k ⊙ q)` -/
+def linDriver (ts : List String) : String :=
+  let p : Rd (List (List Float) × List Float × Float × List Float × List Float × Nat) := do
+    let n ← Rd.nat
+    let m ← Rd.rep n (Rd.rep n (Rd.val : Rd Float))
+    let k ← Rd.list (Rd.val : Rd Float)
+    let dt ← (Rd.val : Rd Float)
+    let q ← Rd.list (Rd.val : Rd Float)
+    let v ← Rd.list (Rd.val : Rd Float)
+    let steps ← Rd.nat
+    pure (m, k, dt, q, v, steps)
+  match Rd.run p ts with
+  | some (m, k, dt, q, v, steps) =>
+    if k.length != m.length || q.length != m.length || v.length != m.length then "bad-args" else
+    let A : Vec → Vec := fun x => ⟨Gd.gaussSolve m (List.zipWith (· * ·) k x.xs)⟩
+    let states := (List.range (steps + 1)).map fun i => C12.linIter A dt i ((⟨q⟩ : Vec), (⟨v⟩ : Vec))
+    renderVals (states.flatMap fun s => s.1.xs ++ s.2.xs)
+  | _ => "bad-args"
+
+def step (line : String) : String :=
+  match tokens line with
+  | "lin" :: ts => linDriver ts
+  | _ => C12.driverStep line
+
+def main : IO Unit := Brax.driverLoop step
